@@ -35,23 +35,32 @@ def parseColor (t : String) : Option ColorSpec :=
   else if t.startsWith "t:" then (parseNumList (t.drop 2).toString).map .tuple
   else none
 
-def parseFlag (c : Char) : Option (Option Bool) :=
-  if c = 'N' then some none else if c = 'F' then some (some false)
-  else if c = 'T' then some (some true) else none
+/-- a flag value: N None, F False, T True, 0 1 2 ints, e "", x "x", l [], L [0], z 0.0, h 1.5 -/
+def parseFlag (c : Char) : Option PyVal :=
+  if c = 'N' then some .none
+  else if c = 'F' then some (.bool false)
+  else if c = 'T' then some (.bool true)
+  else if c = '0' then some (.int 0)
+  else if c = '1' then some (.int 1)
+  else if c = '2' then some (.int 2)
+  else if c = 'e' then some (.str [])
+  else if c = 'x' then some (.str ['x'])
+  else if c = 'l' then some (.list 0)
+  else if c = 'L' then some (.list 1)
+  else if c = 'z' then some (.float 0 1)
+  else if c = 'h' then some (.float 15 10)
+  else none
 
 def parseSpec (fg bg eff nc : String) : Option Spec :=
-  match parseColor fg, parseColor bg, eff.toList.mapM parseFlag with
-  | some f, some b, some [e1, e2, e3, e4, e5] =>
-    if nc = "0" then some ⟨f, b, e1, e2, e3, e4, e5, false⟩
-    else if nc = "1" then some ⟨f, b, e1, e2, e3, e4, e5, true⟩
-    else none
-  | _, _, _ => none
+  match parseColor fg, parseColor bg, eff.toList.mapM parseFlag, nc.toList.mapM parseFlag with
+  | some f, some b, some [e1, e2, e3, e4, e5], some [n] => some ⟨f, b, e1, e2, e3, e4, e5, n⟩
+  | _, _, _, _ => none
 
 /-- parts of a `cht` line: five tokens each; `P` = plain `str` part (`make_plain`) -/
 def parseParts : Nat → List String → Option (List (Spec × List Char))
   | 0, [] => some []
   | n + 1, fg :: bg :: eff :: nc :: text :: rest =>
-    let spec := if fg = "P" then some ⟨.none, .none, none, none, none, none, none, false⟩
+    let spec := if fg = "P" then some plainSpec
                 else parseSpec fg bg eff nc
     match spec, parseCps text, parseParts n rest with
     | some s, some t, some ps => some ((s, t) :: ps)
@@ -242,7 +251,7 @@ def handle (line : String) : String :=
     match parseCps text with
     | some t =>
       showExcept (fun c => showCps (render [c]))
-        (mkChunk cfg ⟨.none, .none, none, none, none, none, none, false⟩ t)
+        (mkChunk cfg plainSpec t)
     | none => "bad-op"
   | "seq" :: n :: rest =>
     match n.toNat? with
